@@ -1,14 +1,16 @@
 #!/bin/sh
-# usage: tools/altrun.sh <patch.diff> <check> [<check> ...]
-# Runs quick checks against a SCRATCH copy of the repository (a git worktree of /repo's HEAD under /tmp/alt with the
-# patch applied): /repo itself, /verif/evidence and /verif/work are not touched, so this can run next to anything else.
+# usage: [ALT=/tmp/alt2] tools/altrun.sh <patch.diff|none> <check> [<check> ...]
+# Runs quick checks against a SCRATCH copy of the repository (a git worktree of /repo's HEAD under $ALT, default
+# /tmp/alt, with the patch applied): /repo itself, /verif/evidence and /verif/work are not touched, so this can run
+# next to anything else (use different ALT directories for runs in parallel).
+ALT=${ALT:-/tmp/alt}
 p=$1; shift
-if [ ! -d /tmp/alt ]; then git -C /repo worktree add -q --detach /tmp/alt HEAD || exit 2; fi
-git -C /tmp/alt checkout -q --detach "$(git -C /repo rev-parse HEAD)" && git -C /tmp/alt checkout -- . || exit 2
-[ "$p" = "none" ] || git -C /tmp/alt apply "$p" || exit 2
-mkdir -p /tmp/alt-evid /tmp/alt-work
+if [ ! -d "$ALT" ]; then git -C /repo worktree add -q --detach "$ALT" HEAD || exit 2; fi
+git -C "$ALT" checkout -q --detach "$(git -C /repo rev-parse HEAD)" && git -C "$ALT" checkout -- . || exit 2
+[ "$p" = "none" ] || git -C "$ALT" apply "$p" || exit 2
+mkdir -p "$ALT-evid" "$ALT-work"
 for c in "$@"; do
-  out=$(VERIF_REPO=/tmp/alt VERIF_EVID_DIR=/tmp/alt-evid VERIF_WORK_DIR=/tmp/alt-work /verif/tools/vcheck $c quick 2>&1); rc=$?
-  echo "$c rc=$rc $(echo "$out" | grep -c '^VIOLATION') violation line(s); $(echo "$out" | grep -m1 -E 'case=|differs|NOTE|TOOL' | cut -c1-200)"
+  out=$(VERIF_REPO="$ALT" VERIF_EVID_DIR="$ALT-evid" VERIF_WORK_DIR="$ALT-work" /verif/tools/vcheck $c ${TIER:-quick} 2>&1); rc=$?
+  echo "$c rc=$rc $(echo "$out" | grep -c '^VIOLATION') violation line(s); $(echo "$out" | grep -m1 -E 'case=|differs|NOTE|TOOL|gives the same|rank' | cut -c1-200)"
 done
-git -C /tmp/alt checkout -- .
+git -C "$ALT" checkout -- .
